@@ -10,6 +10,7 @@ import pandas as pd
 import common
 import meta
 import popgen
+import t3
 
 
 def orders(rnd, df):
@@ -62,6 +63,7 @@ def run(tier: str) -> int:
               "2^-40 relative tolerance, dtypes exactly, id columns as partitions. distinct = (population, permutation).")
     common.build_and_audit(r, ["C01"], leanchecker=not quick)
     rnd = common.rng("C01")
+    t3.run_t3(r, 1000 * common.seed() + 1, 40 if quick else 600)
     dates = popgen.DATES_QUICK if quick else popgen.DATES_2015
     for date in dates:
         for k in range(5 if quick else 25):
